@@ -504,11 +504,14 @@ func runC01(ctx *runCtx) {
 	// whether the peer can decode)
 	for cm := 0; cm <= 2; cm++ {
 		for sm := 0; sm <= 2; sm++ {
-			sh, w := guarded(30*time.Second, func() (string, string) { return c14LibLib(cm, sm) })
-			ctx.rep.eval(fmt.Sprintf("lib-lib/%d/%d", cm, sm))
-			ctx.rep.count("lib-lib-pairs")
-			if sh != "" {
-				ctx.rep.violate(Violation{Kind: "property", Shape: "round-trip-after-handshake:" + sh, What: w, Replay: map[string]int{"client_mode": cm, "server_mode": sm}})
+			for _, per := range []bool{false, true} {
+				cm, sm, per := cm, sm, per
+				sh, w := guarded(30*time.Second, func() (string, string) { return libLibExchange(cm, sm, per) })
+				ctx.rep.eval(fmt.Sprintf("lib-lib/%d/%d/%v", cm, sm, per))
+				ctx.rep.count("lib-lib-pairs")
+				if sh != "" {
+					ctx.rep.violate(Violation{Kind: "property", Shape: "round-trip-after-handshake:" + sh, What: w, Replay: map[string]interface{}{"client_mode": cm, "server_mode": sm, "per_message_read_contexts": per}})
+				}
 			}
 		}
 	}
@@ -537,4 +540,35 @@ func runC02(ctx *runCtx) {
 		cases = append(cases, genPingInsideCase(rng, 1+2*(i%2)))
 	}
 	runWriteCases(ctx, cases, "C02")
+	// parameters obtained through a real handshake, asymmetric ones from a foreign peer included: the library
+	// server against a raw client's offers, the library client against a raw server's responses; then compressed
+	// messages that refer back to earlier ones, the reference peer using exactly what was negotiated
+	var hs []c14Case
+	for _, off := range []string{"permessage-deflate", "permessage-deflate; client_no_context_takeover", "permessage-deflate; server_no_context_takeover",
+		"permessage-deflate; client_no_context_takeover; server_no_context_takeover", "permessage-deflate; client_max_window_bits", "permessage-deflate; server_max_window_bits=15; server_no_context_takeover"} {
+		for mode := 1; mode <= 2; mode++ {
+			hs = append(hs, c14Case{Kind: "accept-e2e", Mode: mode, Header: []string{off}})
+		}
+	}
+	for _, resp := range []string{"permessage-deflate", "permessage-deflate; client_no_context_takeover", "permessage-deflate; server_no_context_takeover",
+		"permessage-deflate; server_no_context_takeover; client_no_context_takeover"} {
+		for mode := 1; mode <= 2; mode++ {
+			hs = append(hs, c14Case{Kind: "dial-e2e", Mode: mode, Header: []string{resp}})
+		}
+	}
+	for _, cc := range hs {
+		cc := cc
+		sh, w := guarded(30*time.Second, func() (string, string) {
+			if cc.Kind == "accept-e2e" {
+				return c14AcceptE2E(cc)
+			}
+			return c14DialE2E(cc)
+		})
+		ctx.rep.eval("handshake/" + cc.Kind + "/" + cc.Header[0] + fmt.Sprint(cc.Mode))
+		ctx.rep.count("negotiated-through-handshake:" + cc.Kind)
+		// whether the handshake itself accepts or refuses is C14's business; here: what flows afterwards
+		if sh != "" && sh != "client-rejects-valid-response" && sh != "client-accepts-bad-response" {
+			ctx.rep.violate(Violation{Kind: "property", Shape: "after-handshake:" + sh, What: w, Replay: cc})
+		}
+	}
 }
